@@ -116,6 +116,22 @@ def xorN : Nat → Bool → Bool
   | 0, _ => false
   | n + 1, b => xor b (xorN n b)
 
+/-- `_matrix_to_quaternion` over any scalar type, with the square root as a parameter (Shepperd's
+method: relu of the four candidates, first-maximum argmax, division by `2·sqrt(best)`; `1 + 1` is the
+literal `2`, exact in `Float`). `F.matrixToQuat` is this function at `Float.sqrt`. -/
+def matrixToQuatG {K : Type} [Add K] [Sub K] [Mul K] [Div K] [OfNat K 0] [OfNat K 1]
+    [LT K] [DecidableLT K] [LE K] [DecidableLE K] (sqrt : K → K) (m : Mat3 K) : Q K :=
+  let relu := fun (x : K) => if x < 0 then 0 else x
+  let q := relu (1 + m.m00 - m.m11 - m.m22); let r := relu (1 - m.m00 + m.m11 - m.m22)
+  let s := relu (1 - m.m00 - m.m11 + m.m22); let w := relu (1 + m.m00 + m.m11 + m.m22)
+  -- argmax returns the first maximal entry
+  let best := if q ≥ r && q ≥ s && q ≥ w then 0 else if r ≥ s && r ≥ w then 1 else if s ≥ w then 2 else 3
+  match best with
+  | 0 => let d := sqrt q * (1 + 1); ⟨q / d, (m.m10 + m.m01) / d, (m.m02 + m.m20) / d, (m.m21 - m.m12) / d⟩
+  | 1 => let d := sqrt r * (1 + 1); ⟨(m.m10 + m.m01) / d, r / d, (m.m12 + m.m21) / d, (m.m02 - m.m20) / d⟩
+  | 2 => let d := sqrt s * (1 + 1); ⟨(m.m20 + m.m02) / d, (m.m21 + m.m12) / d, s / d, (m.m10 - m.m01) / d⟩
+  | _ => let d := sqrt w * (1 + 1); ⟨(m.m21 - m.m12) / d, (m.m02 - m.m20) / d, (m.m10 - m.m01) / d, w / d⟩
+
 /-! ### conversions over `Float` -/
 namespace F
 
@@ -167,17 +183,7 @@ def toEuler (quat : Q Float) (seq : List Nat) (extrinsic : Bool) : List Float :=
   [wrap angles0, wrap angles1, wrap angles2]
 
 /-- `_matrix_to_quaternion` -/
-def matrixToQuat (m : Mat3 Float) : Q Float :=
-  let relu := fun (x : Float) => if x < 0 then 0 else x
-  let q := relu (1 + m.m00 - m.m11 - m.m22); let r := relu (1 - m.m00 + m.m11 - m.m22)
-  let s := relu (1 - m.m00 - m.m11 + m.m22); let w := relu (1 + m.m00 + m.m11 + m.m22)
-  -- argmax returns the first maximal entry
-  let best := if q ≥ r && q ≥ s && q ≥ w then 0 else if r ≥ s && r ≥ w then 1 else if s ≥ w then 2 else 3
-  match best with
-  | 0 => let d := Float.sqrt q * 2; ⟨q / d, (m.m10 + m.m01) / d, (m.m02 + m.m20) / d, (m.m21 - m.m12) / d⟩
-  | 1 => let d := Float.sqrt r * 2; ⟨(m.m10 + m.m01) / d, r / d, (m.m12 + m.m21) / d, (m.m02 - m.m20) / d⟩
-  | 2 => let d := Float.sqrt s * 2; ⟨(m.m20 + m.m02) / d, (m.m21 + m.m12) / d, s / d, (m.m10 - m.m01) / d⟩
-  | _ => let d := Float.sqrt w * 2; ⟨(m.m21 - m.m12) / d, (m.m02 - m.m20) / d, (m.m10 - m.m01) / d, w / d⟩
+def matrixToQuat (m : Mat3 Float) : Q Float := matrixToQuatG Float.sqrt m
 
 /-- `from_rotvec` (proper part) -/
 def fromRotvec (v : V3 Float) : Q Float :=
